@@ -207,21 +207,12 @@ def configs_for(tier: str):
     long1 = streams("long", 1)
     long2 = streams("long", 2)
     g = []
-    for s in long1 + (long2 if tier == "thorough" else []):
+    for s in long1 + long2:
         n = len(stream_bytes(s)[0])
         g.append({"stream": s, "cuts": []})
         for c in range(1, n):
             g.append({"stream": s, "cuts": [c]})
     groups["single-cut-every-position"] = g
-    if tier == "quick":
-        # two-line streams: uncut plus every interesting cut (inside a character / CRLF)
-        g = []
-        for s in long2:
-            data = stream_bytes(s)[0]
-            g.append({"stream": s, "cuts": []})
-            for c in interesting_positions(data):
-                g.append({"stream": s, "cuts": [c]})
-        groups["two-lines-interesting-cuts"] = g
     # (2) every pair of cuts on short streams
     g = []
     short = streams("short", 1) + (streams("short", 2) if tier == "thorough" else [])
